@@ -311,6 +311,17 @@ func setStatus(cmdStatus map[plumbing.ReferenceName]error, firstErr *error, ref 
 	}
 }
 
+// currentValueIs reports whether reference n currently points at old, the
+// value the client based its update on. As in canonical Git's receive-pack, a
+// command whose old value is stale must not be applied.
+func currentValueIs(s storer.ReferenceStorer, n plumbing.ReferenceName, old plumbing.Hash) bool {
+	ref, err := s.Reference(n)
+	if err != nil {
+		return false
+	}
+	return ref.Hash().Equal(old)
+}
+
 func referenceExists(s storer.ReferenceStorer, n plumbing.ReferenceName) (bool, error) {
 	_, err := s.Reference(n)
 	if err == plumbing.ErrReferenceNotFound {
@@ -339,7 +350,7 @@ func updateReferences(st storage.Storer, req *packp.UpdateRequests, cmdStatus ma
 			err := st.SetReference(ref)
 			setStatus(cmdStatus, firstErr, cmd.Name, err)
 		case packp.Delete:
-			if !exists {
+			if !exists || !currentValueIs(st, cmd.Name, cmd.Old) {
 				setStatus(cmdStatus, firstErr, cmd.Name, ErrUpdateReference)
 				continue
 			}
@@ -347,7 +358,7 @@ func updateReferences(st storage.Storer, req *packp.UpdateRequests, cmdStatus ma
 			err := st.RemoveReference(cmd.Name)
 			setStatus(cmdStatus, firstErr, cmd.Name, err)
 		case packp.Update:
-			if !exists {
+			if !exists || !currentValueIs(st, cmd.Name, cmd.Old) {
 				setStatus(cmdStatus, firstErr, cmd.Name, ErrUpdateReference)
 				continue
 			}
